@@ -7,4 +7,29 @@ TEXTS = {
         "level_text": "The finite domain (every registration call in v3/lints and every lint in the registry of a default build) is enumerated completely on each run and compared both ways; lookups with generated near-miss names/sources and generated filtered registries are sampled. Decides the property for the tree as it is when the check runs.",
         "level_note": "Trusts go/parser's view of the sources and that registrations are syntactic lint.Register* calls; says nothing about trees not yet written.",
     },
+    "C01": {
+        "technique": "rapid property test over generated objects x registries x configurations; result-set invariant oracle",
+        "level_text": "Exploration: tens of thousands (quick) to millions (thorough) of generated parseable certificates/CRLs/OCSP responses, each linted with a generated registry selection and configuration; every returned ResultSet is checked against the invariants of the statement (exact key set, non-nil, metadata, status range, four flags both directions, version from go.mod, no panic/hang). Status mixes the real lints cannot produce come from the mock-lint leg.",
+        "level_note": "Samples the input space; shapes no generator reaches are not covered. Hang = one call > 120 s.",
+    },
+    "C02": {
+        "technique": "single-edit DER sweep (enumerated in thorough) + rapid multi-edit mutation + native fuzzing (thorough); panic / explicit-fatal oracle with reference lifecycle",
+        "level_text": "Exploration of hostile inputs: every corpus object x every leaf x ~190 deterministic edits (complete in thorough, 1/97 stride in quick), random multi-edit and crossover mutants, built CRLs/OCSP; the oracle demands no recovered-panic result, no escaping panic, and that each fatal is the rule body's own verdict. Per-lint 'body executed' counts are reported so blind spots are visible.",
+        "level_note": "Only executed paths are observed; a panic on an unreached path stays invisible.",
+    },
+    "C03": {
+        "technique": "enumerated boundary sweep (every dated lint x home objects x +-1 s x time encodings/zones) + rapid re-dating; integer window model oracle",
+        "level_text": "Every lint that has an effective or ineffective date is driven, on objects on which it applies, to both sides of each boundary at one-second resolution in several DER time encodings and struct time zones; all other lints are judged on the same objects. The oracle is an independent integer comparison of Unix seconds.",
+        "level_note": "Applicability is re-evaluated on the re-dated object with the lint's own CheckApplies; zlint's year-0 ZeroDate boundaries cannot be approached.",
+    },
+    "C04": {
+        "technique": "differential against an independent reference lifecycle (scope model from the statement) over an enumerated scope matrix + rapid-generated objects; mock-lint call logs",
+        "level_text": "Every lint's framework result is compared (status and details) with a reference lifecycle built from public API only: scope model written from the statement, fresh instance, MaybeConfigure, CheckApplies, integer window, Execute. The single-feature scope matrix (each EKU / each scope policy OID / e-mail SAN variants) is enumerated in both tiers, so a predicate losing one OID or EKU is caught deterministically.",
+        "level_note": "The reference calls the rule body a second time, so it relies on bodies being deterministic (C05).",
+    },
+    "C06": {
+        "technique": "rapid-generated and home-object-directed mutation; (lint, status) tally against the prefix rule; known findings keyed by lint+status",
+        "level_text": "Exploration: each lint run of corpus, directed (home objects of each lint x edits) and generated objects contributes to a lint x status tally judged against the naming contract; nine listed lint+status pairs are known findings, any other pair is a violation.",
+        "level_note": "Only return paths that some generated object reaches are observed.",
+    },
 }
